@@ -261,53 +261,6 @@ theorem OwnL.perm {s loc loc' locB} (h : OwnL fl s loc locB) (hp : loc'.Perm loc
   obtain ⟨L, rest, e1, e2, e3, e4⟩ := h
   exact ⟨L, rest, e1, e2, e3, e4.perm (List.Perm.append_right _ hp)⟩
 
-/-- `next`/`next_back` scripts of `Drain`/`IntoIter`: the cursor range `[lo, hi)` holds ids owned by
-the iterator; each step hands one of them to the caller; the slots are never written. -/
-theorem iterSteps_own {loc locB} : ∀ (script : List IStep) (c : Cur) (s : St) (A : List Slot)
-    (M : List Nat) (C : List Slot), s.v.slots = A ++ M.map .init ++ C → c.lo = A.length →
-    c.hi = A.length + M.length → OwnL fl s (M ++ loc) locB →
-    ∃ A' M' C', (iterSteps script c s).2.v = s.v ∧ s.v.slots = A' ++ M'.map .init ++ C' ∧
-      (iterSteps script c s).1.lo = A'.length ∧
-      (iterSteps script c s).1.hi = A'.length + M'.length ∧
-      OwnL fl (iterSteps script c s).2 (M' ++ loc) locB
-  | [], c, s, A, M, C, hs, hlo, hhi, h => ⟨A, M, C, rfl, hs, hlo, hhi, h⟩
-  | .front :: r, c, s, A, M, C, hs, hlo, hhi, h => by
-    unfold iterSteps
-    split
-    · rename_i hlt
-      cases M with
-      | nil => simp at hhi; omega
-      | cons a M =>
-        have hg : s.v.get c.lo = .init a :=
-          Vec.get_mid (A := A) (C := M.map .init ++ C) (by simp [hs]) hlo
-        simp only [St.onMem_eq, hg, Mem.readMove]
-        have h1 : OwnL fl (St.withMem (Mem.retId a) { s with mem := s.mem }) (M ++ loc) locB :=
-          OwnL.retId h
-        obtain ⟨A', M', C', e1, e2, e3, e4, e5⟩ :=
-          iterSteps_own r { c with lo := c.lo + 1 } _ (A ++ [.init a]) M C (by simp [hs])
-            (by simp [hlo]) (by simp at hhi ⊢; omega) h1
-        exact ⟨A', M', C', e1, e2, e3, e4, e5⟩
-    · exact iterSteps_own r c s A M C hs hlo hhi h
-  | .back :: r, c, s, A, M, C, hs, hlo, hhi, h => by
-    unfold iterSteps
-    split
-    · rename_i hlt
-      rcases eq_nil_or_snoc M with rfl | ⟨M0, z, rfl⟩
-      · simp at hhi; omega
-      · have hg : s.v.get (c.hi - 1) = .init z :=
-          Vec.get_mid (A := A ++ M0.map .init) (C := C) (by simp [hs])
-            (by simp at hhi ⊢; omega)
-        simp only [St.onMem_eq, hg, Mem.readMove]
-        have h0 : OwnL fl s (z :: (M0 ++ loc)) locB := h.perm (by perm_tac)
-        have h1 : OwnL fl (St.withMem (Mem.retId z) { s with mem := s.mem }) (M0 ++ loc) locB :=
-          OwnL.retId h0
-        obtain ⟨A', M', C', e1, e2, e3, e4, e5⟩ :=
-          iterSteps_own r { c with hi := c.hi - 1 } _ A M0 (.init z :: C) (by simp [hs])
-            (by simp [hlo]) (by simp at hhi ⊢; omega) h1
-        exact ⟨A', M', C', e1, e2, e3, e4, e5⟩
-    · exact iterSteps_own r c s A M C hs hlo hhi h
-
-
 theorem map_init_inj : ∀ {L L' : List Nat}, L.map Slot.init = L'.map Slot.init → L = L'
   | [], [], _ => rfl
   | [], _ :: _, h => by simp at h
@@ -375,45 +328,6 @@ theorem drainDrop_own {s : St} {loc locB L1 M' T : List Nat} {G rest : List Slot
     subst hL
     exact e4.perm (by perm_tac)
 
-theorem drainOp_own {s loc locB} (a b : Nat) (script : List IStep) (fin : IFin)
-    (h : OwnL fl s loc locB) (hfin : fl = true → fin = .drop) :
-    OwnL fl (drainOp a b script fin s).2 loc locB := by
-  unfold drainOp
-  split
-  · rename_i hab
-    obtain ⟨L1, M, T, rest, e1, e2, e3, e4, hp, ha⟩ := h.split3 hab.1 hab.2
-    have hle := h.len_le
-    have h0 : OwnL fl (s.setLen a) (M ++ (T ++ loc)) locB :=
-      ⟨L1, M.map .init ++ (T.map .init ++ rest), by simp [e1], by simp [e4], hp, ha⟩
-    obtain ⟨A', M', C', f1, f2, f3, f4, f5⟩ :=
-      iterSteps_own script { lo := a, hi := b } (s.setLen a) (L1.map .init) M
-        (T.map .init ++ rest) (by simp [e4]) (by simp [e1]) (by simp [e1, e2]; omega) h0
-    dsimp only
-    generalize iterSteps script { lo := a, hi := b } (s.setLen a) = r at f1 f3 f4 f5 ⊢
-    obtain ⟨c, s1⟩ := r
-    simp only at f1 f3 f4 f5 ⊢
-    cases fin with
-    | leak => exact (f5.leak (fun hf => by cases hfin hf)).leak (fun hf => by cases hfin hf)
-    | drop =>
-      simp only
-      obtain ⟨L, rest', g1, g2, g3, g4⟩ := f5
-      have hv1 : s1.v.slots = L1.map .init ++ M.map .init ++ (T.map .init ++ rest) := by
-        rw [f1]; simp [e4]
-      have hlen1 : s1.v.len = L1.length := by rw [f1]; simp [e1]
-      have hL : L = L1 := by
-        have h5 : L.map Slot.init = (L1.map Slot.init) := by
-          have := congrArg (List.take L1.length) (g2.symm.trans hv1)
-          rw [hlen1] at g1
-          simpa [List.take_append, ← g1] using this
-        exact map_init_inj h5
-      subst hL
-      refine drainDrop_own (L1 := L) (M' := M') (T := T) (G := M.map .init) (rest := rest) hv1
-        hlen1 ?_ (by simp only [List.length_map, e1, e2]; omega) (by omega) g3 g4
-      rw [f1]
-      exact Vec.range_mid f2 f3 (by simpa using f4)
-  · exact h
-
-
 theorem Acct.weakenB {m l B B'} (h : Acct fl m l B) (hn : B'.Nodup) (hs : ∀ b ∈ B', b ∈ B) :
     Acct fl m l B' :=
   { h with bnodup := hn, blive := fun b hb => h.blive b (hs b hb) }
@@ -455,25 +369,6 @@ theorem iDrop_own {s loc locB} (h : OwnL fl s loc locB) (hth : fl = true → s.v
   have h1 := e2.dropLoop.kill (fun hf => ⟨rfl, prefL_of_not_thin (hth hf)⟩)
   exact h1
 
-theorem iterSteps_setLen : ∀ (sc : List IStep) (c : Cur) (s : St) (n : Nat),
-    iterSteps sc c (s.setLen n) = ((iterSteps sc c s).1, (iterSteps sc c s).2.setLen n)
-  | [], _, _, _ => rfl
-  | .front :: r, c, s, n => by
-    unfold iterSteps
-    by_cases hlt : c.lo < c.hi
-    · simp only [if_pos hlt]
-      exact iterSteps_setLen r _ (St.withMem (Mem.retId (St.onMem (Mem.readMove (s.v.get c.lo)) s).1)
-        (St.onMem (Mem.readMove (s.v.get c.lo)) s).2) n
-    · simp only [if_neg hlt]; exact iterSteps_setLen r c s n
-  | .back :: r, c, s, n => by
-    unfold iterSteps
-    by_cases hlt : c.lo < c.hi
-    · simp only [if_pos hlt]
-      exact iterSteps_setLen r _ (St.withMem
-        (Mem.retId (St.onMem (Mem.readMove (s.v.get (c.hi - 1))) s).1)
-        (St.onMem (Mem.readMove (s.v.get (c.hi - 1))) s).2) n
-    · simp only [if_neg hlt]; exact iterSteps_setLen r c s n
-
 /-- the container is replaced by a fresh empty InlineVec; whatever it owned is leaked -/
 theorem OwnL.renew {s loc locB} (c : Nat) (h : OwnL fl s loc locB)
     (hk : fl = true → s.v.len = 0 ∧ prefL s.v.h = []) :
@@ -492,44 +387,6 @@ theorem OwnL.renew {s loc locB} (c : Nat) (h : OwnL fl s loc locB)
     exact e4.weaken (by simpa using (List.nodup_append.mp e4.nodup).1)
         (fun a ha => by simp at ha; exact List.mem_append_left _ ha)
         (fun _ a ha => by simpa using ha)
-
-theorem iIntoIter_own {s loc locB} (script : List IStep) (fin : IFin) (h : OwnL fl s loc locB)
-    (hfin : fl = true → fin = .drop) (hth : fl = true → s.v.h.thin = false) :
-    OwnL fl (iIntoIter script fin s).2 loc locB := by
-  unfold iIntoIter
-  obtain ⟨L, e1, e2⟩ := h.take_all
-  obtain ⟨L0, rest, g1, g2, -, -⟩ := h
-  have hL : L = L0 := by
-    have := Vec.range_mid (v := s.v) (A := []) (B := L0.map .init) (C := rest) (a := 0)
-      (b := s.v.len) (by simp [g2]) rfl (by simp [g1])
-    exact map_init_inj (e1.symm.trans this)
-  subst hL
-  obtain ⟨A', M', C', f1, f2, f3, f4, f5⟩ :=
-    iterSteps_own script { lo := 0, hi := s.v.len } (s.setLen 0) [] L rest (by simp [g2]) rfl
-      (by simp [g1]) e2
-  rw [iterSteps_setLen] at f1 f3 f4 f5
-  dsimp only at f1 f3 f4 f5 ⊢
-  generalize iterSteps script { lo := 0, hi := s.v.len } s = r at f1 f3 f4 f5 ⊢
-  obtain ⟨c, s1⟩ := r
-  simp only at f1 f3 f4 f5 ⊢
-  have hv : s1.v.slots = s.v.slots := by
-    have := congrArg Vec.slots f1; simpa using this
-  have hh : s1.v.h = s.v.h := by
-    have := congrArg Vec.h f1; simpa using this
-  have hk : fl = true → (s1.setLen 0).v.len = 0 ∧ prefL (s1.setLen 0).v.h = [] :=
-    fun hf => ⟨rfl, prefL_of_not_thin (by simpa [hh] using hth hf)⟩
-  cases fin with
-  | leak => exact ((f5.leak (fun hf => by cases hfin hf)).renew s1.v.cap hk)
-  | drop =>
-    have hr : s1.v.range c.lo c.hi = M'.map .init := by
-      have : s1.v.range c.lo c.hi = (s.setLen 0).v.range c.lo c.hi := by
-        simp only [Vec.range, hv, St.setLen_slots]
-      rw [this]
-      exact Vec.range_mid f2 f3 (by simpa using f4)
-    simp only [hr]
-    have h3 := (f5.dropLoop).renew s1.v.cap hk
-    exact h3
-
 
 /-- a local vector whose first `len` slots hold the ids `acc` -/
 def LocalVec (o : Vec) (acc : List Nat) : Prop :=
